@@ -211,7 +211,9 @@ class Executor(object):
             if bad and judge_state:
                 raise Violation('bad-transition:' + bad, {'op': op, 'from': prev, 'to': S})
             if bad:
-                raise Abandon(bad)
+                # judged under C02 only; the other checks keep following the implementation's phase (the
+                # terminal clauses of C03 still apply to whatever state it claims to have reached)
+                self.st.inc('probe:questionable-transition-followed')
         m.phase = S
         if (chk == 'C03' and S == 'jumpoff' and prev == 'jumpoff' and m.jo_wf and not m.follow_only
                 and m.round_in and op[0] in TRIALS):
